@@ -169,7 +169,11 @@ impl LookupClass<&StringName, Class> for Context {
     /// Substitutes all generics in the class when found.
     /// Also constructs class complete with all fields and functions from parents.
     fn class(&self, class: &StringName, pos: Position) -> TypeResult<Class> {
-        if let Some(generic_class) = self.classes.iter().find(|c| c.name.name == class.name) {
+        // if there are multiple classes with the same name, first defined takes precedence
+        let same_name = self.classes.iter().filter(|c| c.name.name == class.name);
+        let first = same_name.min_by_key(|c| (c.pos.start.line, c.pos.start.pos, c.name.generics.len()));
+
+        if let Some(generic_class) = first {
             let mut generics = HashMap::new();
             if class.name == TUPLE {
                 // Tuple exception, variable generic count
